@@ -28,11 +28,13 @@ def defNamesL : List Top → List Str
   | t :: r => defNames t ++ defNamesL r
 end
 
-def matchKinds : List Str := ["Match", "match_case", "ExceptHandler"].map String.toList
+/-- clause nodes that may only occur where `ast.parse` puts them. Until /repo 6e8e4cc this list also held
+`Match` / `match_case` (RootContextBuilder had no `visit_Match`: module-level `match` was outside `regular`). -/
+def matchKinds : List Str := ["ExceptHandler"].map String.toList
 
 mutual
-/-- the shape `ast.parse` produces, minus module-level `match`: no `Match` / `match_case` node in a
-registered position, `ExceptHandler` nodes exactly as the handlers of a `try`. -/
+/-- the shape `ast.parse` produces: `ExceptHandler` nodes exactly as the handlers of a `try` / `try … except*`
+(module-level `match` statements are regular since 6e8e4cc). -/
 def regular : Top → Bool
   | .tryStmt b h o fb => regularL b && regularH h && regularL o && regularL fb
   | .compound kind kids => !matchKinds.contains kind && regularL kids
